@@ -442,6 +442,18 @@ def _bab_call(c, f, mk, lyot):
     return wf.babinet(c['efl'], lyot, mk, c['fdx'], method=c['method'])
 
 
+def pred_embed(c):
+    """fttools.pad2d(f, out_shape) puts sample n//2 of every axis on sample N//2 of the output (the embedding of the pad-invariance
+    relation)"""
+    _, ft = _impl()
+    f = _field(c['seed'], (c['m'], c['n']))
+    shape = (c['m'] + c['pad'][0], c['n'] + c['pad'][1])
+    real = ft.pad2d(f, out_shape=shape)
+    if real.shape != shape or not np.array_equal(real, embed(f, shape)):
+        return f'pad2d(f, out_shape={shape}) is not the origin-on-origin zero embedding of the {f.shape} array'
+    return None
+
+
 def pred_babinet_model(c):
     """Wavefront.babinet(efl, lyot, fpm, fpm_dx) = lyot * (field - return through the complement 1 - fpm), against explicit
     physical-units sums; the result is a pupil-plane Wavefront with the pupil's dx; arguments untouched"""
@@ -500,7 +512,7 @@ def pred_pure(c):
     return None
 
 
-PREDS.update({'fixed_vs_model': pred_pure, 'exec_vs_model': pred_pure, 'fpm_vs_model': pred_pure, 'babinet_vs_model': pred_babinet_model})
+PREDS.update({'fixed_vs_model': pred_pure, 'exec_vs_model': pred_pure, 'fpm_vs_model': pred_pure, 'babinet_vs_model': pred_babinet_model, 'embed_vs_model': pred_embed})
 
 
 def eval_pred(item, c):
@@ -689,6 +701,13 @@ def correspondence(ctx):
             j, k = int(rng.integers(c['m'])), int(rng.integers(c['n']))
             lines.append(' '.join(['babpt'] + head[1:] + [str(j), str(k)] + nums + data))
             meta.append(('babpt', (c, j, k)))
+    for i in range(ctx.scale(40, 150)):
+        m, n = int(rng.integers(1, hi + 1)), int(rng.integers(1, hi + 1))
+        a, b = int(rng.integers(0, 8)), int(rng.integers(0, 8))
+        c = {'m': m, 'n': n, 'pad': [a, b], 'seed': int(rng.integers(1 << 30))}
+        f = _field(c['seed'], (m, n))
+        lines.append(' '.join(['emb', str(m), str(n), str(m + a), str(n + b)] + _wire_field(f)))
+        meta.append(('emb', (c, f)))
     replies = C.lean_driver('C05', lines)
 
     for (kind, dat), rep in zip(meta, replies):
@@ -731,6 +750,19 @@ def correspondence(ctx):
             err = _relerr(a, b) if out.shape == mod.shape else float('inf')
             if err > L.tol_of(c, TOL):
                 ctx.disagree('exec_vs_model', c, f'shape {out.shape}', f'rel. err {err:.3g}')
+            continue
+        if kind == 'emb':
+            c, f = dat
+            shape = (c['m'] + c['pad'][0], c['n'] + c['pad'][1])
+            ctx.case('embed_vs_model', c, nontrivial=any(c['pad']), tag=f"par{shape[0] % 2}{shape[1] % 2}-from-par{c['m'] % 2}{c['n'] % 2}")
+            mod = _unwire_field(rep.split(), shape)
+            try:
+                real = ft.pad2d(f, out_shape=shape)
+            except Exception as ex:
+                ctx.disagree('embed_vs_model', c, f'pad2d raised {type(ex).__name__}: {ex}', 'model returns an array')
+                continue
+            if real.shape != mod.shape or not np.array_equal(real, mod) or not np.array_equal(embed(f, shape), mod):
+                ctx.disagree('embed_vs_model', c, 'fttools.pad2d(f, out_shape=...) / harness embed', 'Model.C05.embed', note='zero-pad embedding')
             continue
         if kind in ('bab', 'babpt'):
             c = dat[0]
@@ -970,7 +1002,7 @@ MANIFEST_ENTRY = {
              'transpose/pad/separability, all-pass (array or Wavefront mask with or without fpm_dx, function and Wavefront method, '
              'returned container checked), Babinet additivity/complement/homogeneity, field-linearity/pad/transpose/method agreement '
              'of to_fpm_and_back itself, return_more planes (values, order, dx, space) of to_fpm_and_back, its Wavefront method and '
-             'babinet, Lyot stop as array or Wavefront; Wavefront.babinet against the Lean model (table and pointwise from Model.C05.babinet) and against explicit physical-units sums, masks real/complex/binary/bool/int/strided as arrays or Wavefronts, Lyot stop complex/binary/absent, band-complete and general mask grids.'),
+             'babinet, Lyot stop as array or Wavefront; Wavefront.babinet against the Lean model (table and pointwise from Model.C05.babinet) and against explicit physical-units sums, masks real/complex/binary/bool/int/strided as arrays or Wavefronts, Lyot stop complex/binary/absent, band-complete and general mask grids; Model.C05.embed (the embedding of the pad-invariance theorems) against fttools.pad2d(out_shape=...) exactly, every parity of both shapes.'),
     'note': ('Trusted: Lean kernel + standard axioms; ast->Lean translator (validated by execution); numpy/scipy; float64 rounding '
              '(tolerance 1e-9, observed 1e-14). Not covered: *_backprop functions (C06), float32 mode, other backends.'),
 }
